@@ -14,3 +14,5 @@ import GitBugModel.Model.Lamport
 import GitBugModel.Props.C05
 import GitBugModel.Model.Identity
 import GitBugModel.Props.C09
+import GitBugModel.Model.Query
+import GitBugModel.Props.C12
